@@ -506,7 +506,7 @@ var wrongShapes = []func() *yaml.Node{
 var recGen = ev.New("TestPropInjectedTypeErrors", "grammar-generated pipeline documents (all step kinds incl. unknown steps, groups, anchors/merges) with 0-4 injected type errors: the value at a random position (any node of the tree: step entries, typed fields, kind keys, `type`, `steps`, plugin items, matrix/cache/signature members, mapping keys' values) replaced by a value of another shape (null, int, bool, float, timestamp, .nan, uint64, string, list, nested list, mapping, [null], {type: 5}, group with scalar steps, group holding unknown / integer steps ...); oracle: no panic, prompt return, and if the result is usable: Steps non-nil, exactly one non-nil step per input entry in order and recursively inside groups, fallbacks hold the entry verbatim, known kinds follow the rule table, unknown steps are covered by the warning, json/yaml marshalling succeeds (except known finding F7); non-trivial = usable result with >= 1 step and >= 1 injection; distinct by hash of the text")
 
 func TestPropInjectedTypeErrors(t *testing.T) {
-	ev.Check(t, 4000, 40000, func(t *rapid.T) {
+	ev.Check(t, 2500, 30000, func(t *rapid.T) {
 		g := doc.NewG(t, doc.Config{Anchors: rapid.IntRange(0, 2).Draw(t, "anchors") == 0, Timestamps: true, BigNums: true, Floats: true,
 			BigMaps: rapid.IntRange(0, 3).Draw(t, "big") == 0, EmptyKey: true, MergeKeyStr: true, EmptyMatrix: true, UnknownSteps: true, BothCommands: true, Signature: true,
 			MaxSteps: rapid.SampledFrom([]int{5, 5, 14, 30}).Draw(t, "maxsteps")})
